@@ -440,6 +440,7 @@ def run_child(tmpdir, cfg, umask, body, body_exc, sched, crash, slow=0.0, kill_a
             try:
                 import boltons.fileutils as fu
                 fu.os = Rec(ctx)
+                os.write(wfd, b"R")            # ready: the save starts now (lets the parent time a SIGKILL)
                 outcome = _drive(fu, cfg, ctx, tmpdir, body, body_exc)
                 ctx.dump({"outcome": outcome})
             except BaseException:
@@ -452,6 +453,7 @@ def run_child(tmpdir, cfg, umask, body, body_exc, sched, crash, slow=0.0, kill_a
     if kill_after is not None:
         import signal
         import time
+        os.read(rfd, 1)                        # wait until the child is about to start the save
         time.sleep(kill_after)
         try:
             os.kill(pid, signal.SIGKILL)
@@ -470,7 +472,10 @@ def run_child(tmpdir, cfg, umask, body, body_exc, sched, crash, slow=0.0, kill_a
     _, status = os.waitpid(pid, 0)
     if not chunks:
         raise RuntimeError("child reported nothing (status %r)" % (status,))
-    rep = json.loads(b"".join(chunks).decode())
+    data = b"".join(chunks)
+    if data[:1] == b"R":
+        data = data[1:]
+    rep = json.loads(data.decode())
     if "__crash__" in rep:
         raise RuntimeError("unexpected exception escaped the save:\n" + rep["__crash__"])
     return rep
@@ -522,6 +527,8 @@ def run_impl(case):
             raise RuntimeError("non-deterministic run: crash run %d diverges from the full run: %r vs %r"
                                % (k, repk, rep["trace"][:k]))
         obs["crashes"].append([k, filesk])
+    if case.get("strace"):
+        obs["strace"] = strace_check(case)        # raises on a mismatch (fail closed)
     # SIGKILL at arbitrary instants (fractions of the slowed-down run's duration)
     obs["asyncs"] = []
     for frac in case.get("async", []):
@@ -530,11 +537,90 @@ def run_impl(case):
         try:
             _populate(tmpdir, cfg, case["init"])
             run_child(tmpdir, cfg, case.get("umask", 0o022), case["body"], case.get("body_exc", False),
-                      case.get("sched", []), None, slow=slow, kill_after=0.003 + frac * (nev + 2) * (slow + 0.0005))
+                      case.get("sched", []), None, slow=slow, kill_after=frac * (nev + 1) * (slow + 0.0002))
             obs["asyncs"].append(scan(tmpdir, _names(cfg)))
         finally:
             shutil.rmtree(tmpdir, ignore_errors=True)
     return obs
+
+
+# ---------------------------------------------------------------------------
+# strace cross-check of the recorder (a sample of runs)
+# ---------------------------------------------------------------------------
+STRACE = "/usr/bin/strace"
+_SYSCALLS = "openat,open,creat,unlink,unlinkat,rename,renameat,renameat2,link,linkat,chmod,fchmodat,fchmod,fsync,fdatasync,write,pwrite64,writev,truncate,ftruncate"
+_KIND = {"openat": "open", "open": "open", "creat": "open", "unlink": "unlink", "unlinkat": "unlink",
+         "rename": "rename", "renameat": "rename", "renameat2": "rename", "link": "link", "linkat": "link",
+         "chmod": "chmod", "fchmodat": "chmod", "fchmod": "chmod", "fsync": "fsync", "fdatasync": "fsync",
+         "truncate": "truncate", "ftruncate": "truncate"}
+
+
+def strace_check(case):
+    """Run the save once more under `strace -f -y`, with the recorder installed, and compare what the
+    kernel saw in the scenario's directory with what the recorder recorded: same sequence of
+    create/unlink/rename/link/chmod/fsync calls (with success/failure) and the same number of bytes
+    written to the part file.  Raises on any difference (fail closed).  Returns a small summary."""
+    import re
+    import subprocess
+    import sys
+    assert not case.get("sched"), "strace cross-check is for runs without injected faults"
+    work = tempfile.mkdtemp(prefix="c04st_", dir=TMP_ROOT)
+    try:
+        cf = os.path.join(work, "case.json")
+        with open(cf, "w") as f:
+            json.dump(case, f)
+        out = os.path.join(work, "strace.txt")
+        env = dict(os.environ, PYTHONPATH=os.pathsep.join(sys.path), PYTHONDONTWRITEBYTECODE="1")
+        p = subprocess.run([STRACE, "-f", "-y", "-s", "0", "-e", "trace=" + _SYSCALLS, "-o", out,
+                            sys.executable, os.path.abspath(__file__), "--strace-runner", cf],
+                           stdout=subprocess.PIPE, stderr=subprocess.PIPE, text=True, timeout=50, env=env)
+        if p.returncode != 0:
+            raise RuntimeError("strace runner failed: %s" % p.stderr[-800:])
+        rep = json.loads(p.stdout.strip().splitlines()[-1])
+        key = os.path.basename(rep["tmpdir"])
+        kernel, written = [], 0
+        pids = []
+        for line in open(out, errors="replace"):
+            m = re.match(r"^(\d+)\s+(\w+)\((.*)\)\s+=\s+(-?\d+)", line)
+            if not m:
+                continue
+            pid, name, args, ret = m.group(1), m.group(2), m.group(3), int(m.group(4))
+            if pid not in pids:
+                pids.append(pid)
+            if pid == pids[0]:
+                continue                 # the runner itself (populate/scan/cleanup)
+            if key not in line and (name in ("write", "pwrite64", "writev", "fsync", "fdatasync", "fchmod", "ftruncate")
+                                    or '"/' in args):
+                continue                 # a descriptor or an absolute path outside the scenario's directory
+                                         # (relative paths resolve against the scenario's directory)
+            if name in ("write", "pwrite64", "writev"):
+                if ret > 0:
+                    written += ret
+                continue
+            if name in ("openat", "open") and not re.search(r"O_CREAT|O_WRONLY|O_RDWR|O_TRUNC|O_APPEND", args):
+                continue                 # read-only open
+            kernel.append([_KIND[name], ret >= 0])
+        recorded = [[e[0], e[-1] is None] for e in rep["trace"] if e[0] in ("open", "unlink", "rename", "link", "chmod", "fsync")]
+        rec_written = sum(len(e[2].encode("latin-1")) for e in rep["trace"] if e[0] == "write" and e[-1] is None)
+        if kernel != recorded or (written != rec_written and rep["outcome"][0] == "ok"):
+            raise RuntimeError("strace cross-check: the kernel saw %r (%d bytes written) but the recorder recorded %r (%d bytes)"
+                               % (kernel, written, recorded, rec_written))
+        return {"syscalls_matched": len(kernel), "bytes_written": written}
+    finally:
+        shutil.rmtree(work, ignore_errors=True)
+
+
+def _strace_runner(casefile):
+    import sys
+    case = json.load(open(casefile))
+    cfg = case["cfg"]
+    tmpdir = fresh_dir()
+    try:
+        _populate(tmpdir, cfg, case["init"])
+        rep = run_child(tmpdir, cfg, case.get("umask", 0o022), case["body"], case.get("body_exc", False), [], None)
+        print(json.dumps({"tmpdir": tmpdir, "trace": rep["trace"], "outcome": rep["outcome"]}))
+    finally:
+        shutil.rmtree(tmpdir, ignore_errors=True)
 
 
 # ---------------------------------------------------------------------------
@@ -586,7 +672,8 @@ def c_event(ev, tb):
     elif k == "chmod":
         t = "EChmod %s %s" % (cnat(ev[1]), cN(ev[2]))
     elif k == "write":
-        disk = ev[3] if err is None else 0
+        # a failed write has no measured size: use the value the body was rendered with
+        disk = ev[3] if err is None else getattr(tb, "disk_fill", {}).get(ev[1], 0)
         t = "EWrite %s %s" % (tb.ref(ev[2]), cN(disk))
     elif k == "flush":
         t = "EFlush"
@@ -642,11 +729,20 @@ def c_body(case, trace, tb):
         if ev[0] == "write" and ev[1] is not None and ev[-1] is None:
             disk[ev[1]] = ev[3]
     ops = []
+    tb.disk_fill = {}
+    vl = bl = 0          # bytes in the kernel / still buffered, to give never-executed writes an in-range value
     for j, op in enumerate(case["body"]):
         if op[0] == "w":
-            ops.append("BWrite %s %s" % (tb.ref(utf8(data_of(op))), cN(disk.get(j, 0))))
+            n = len(utf8(data_of(op)))
+            k = disk.get(j)
+            if k is None or not (vl <= k <= vl + bl + n):
+                k = vl if k is None else k        # not executed: "nothing pushed"; executed: keep what was measured
+            ops.append("BWrite %s %s" % (tb.ref(utf8(data_of(op))), cN(k)))
+            tb.disk_fill[j] = k
+            vl, bl = k, max(vl + bl + n - k, 0)
         else:
             ops.append("BFlush")
+            vl, bl = vl + bl, 0
     return clist(ops)
 
 
@@ -783,6 +879,8 @@ def generate(rng, tier, n):
             case["sched"] = [[rng.randint(0, 9), "fault", rng.choice([EIO, ENOSPC, EPERM])]]
         if big_budget:
             case["crash"] = sorted(set(rng.sample(range(0, 12), 5)))
+        elif not case["sched"] and i % 100 in (11, 57):
+            case["strace"] = True          # cross-check the recorder against the kernel's view on this run
         elif rng.random() < (0.25 if tier == "quick" else 0.5):
             # a few real SIGKILLs at arbitrary instants of a slowed-down run
             case["async"] = [round(rng.random(), 3) for _ in range(rng.randint(1, 3))]
@@ -839,6 +937,9 @@ def distribution(d, case, obs):
     bump("writes", str(min(len([o for o in case["body"] if o[0] == "w"]), 6)))
     d["kills"] = d.get("kills", 0) + len([1 for k, _ in obs["crashes"] if k < len(obs["run"]["trace"])])
     d["published"] = d.get("published", 0) + (1 if published(obs) else 0)
+    if obs.get("strace"):
+        d["strace_cross_checked_runs"] = d.get("strace_cross_checked_runs", 0) + 1
+        d["strace_syscalls_matched"] = d.get("strace_syscalls_matched", 0) + obs["strace"]["syscalls_matched"]
     d["async_sigkills"] = d.get("async_sigkills", 0) + len(obs.get("asyncs", []))
     d["async_sigkills_midway"] = d.get("async_sigkills_midway", 0) + len(
         [1 for f in obs.get("asyncs", []) if f != obs["run"]["files"] and f != (obs["crashes"][0][1] if obs["crashes"] else None)])
@@ -875,3 +976,9 @@ def shrink(case):
         c = dict(case)
         c["sched"] = []
         yield c
+
+
+if __name__ == "__main__":
+    import sys
+    if len(sys.argv) == 3 and sys.argv[1] == "--strace-runner":
+        _strace_runner(sys.argv[2])
